@@ -1,7 +1,7 @@
 import LunarVerif.Model.C14
 import LunarVerif.Spec.UrlMatch
 /-
-Spec for C14 in observable terms.
+Spec for C14 in observable terms (state after the repairs F14a, F14b, F14c, F14f and the trie repairs).
 
 Observable per request `(method, url)` of a case:
   * `sel`     — the names of the declared flows / endpoint policies the ENGINE selects for it,
@@ -9,84 +9,83 @@ Observable per request `(method, url)` of a case:
                 is found in `method:::url`).
 Property: `sel ≠ [] → managed` (one way: over-forwarding is not a violation).
 
-`classify` = the decidable classes in which the unchanged code is known to violate the property; the same
-predicate is the excluded hypothesis of `managed_covers_engine_partial` / `c14_holds_partial`:
+`classify` = the decidable classes in which the code is still known to violate the property; the same
+predicate is the excluded hypothesis of `c14_holds_partial`:
 
-  F14b  the declaration names no method (engine: any method; registered: GET/POST/PUT/DELETE/PATCH)
   F14d  pattern or URL text has leading/trailing `.` or `/`: the engine trims both, the expression and
         the subject string are not trimmed — e.g. the trailing-slash URL
-  F14c  `{param}` or `*` in HOST position (not translated: the path-parameter rule needs a leading `/`)
-  F14f  path parameter whose name is outside `[a-zA-Z0-9-_]+` (`{user.id}`, `{id:int}`, `{}`) or whose braces
-        are doubled (`{id}}`): the engine treats it as a parameter, the expression keeps (part of) it as
-        literal text
-  F14a  anything else outside the safe alphabet: regex metacharacters in a literal segment or in the
-        method, `*` not in last position
-  F14e  the ENGINE selects a declaration whose own filter does not accept the request (pattern does not
-        match under `UrlMatch.matches`, method not in its list, empty/odd URL segment, disabled policy):
-        the trie defects of C03/C13; the expression is right not to cover it
+  F14e  the ENGINE selects a declaration whose own filter does not accept the request: what is left open in
+        C03/C13 after the trie repairs is the host/path boundary, which is not part of the trie key
+        (F03e/F13c: `a/b/y` declared after `a.b/x` is selected for `a.b/y`); the expression is right not to
+        cover it
+
+`assumptionsOK` = what the theorems assume about the inputs (NOT defect classes; the judge does not excuse a
+failure by them): the pattern is one `validateURL` accepts (`safe`: structure only), texts are canonical
+(`render (splitURL s) = s`: no doubled braces), methods are HTTP tokens.
 -/
 namespace LunarVerif.C14
 open LunarVerif.UrlTree LunarVerif.UrlMatch LunarVerif.Regex
 
-/-- Characters with a meaning in the regex syntax. -/
-def metaChars : List Char := ['\\', '.', '+', '*', '?', '(', ')', '|', '[', ']', '{', '}', '^', '$']
+/-- Characters with a meaning in the regex syntax (= what `QuoteMeta` escapes). -/
+def metaChars : List Char := specialChars
 
-/-- Literal for the regex parser and inert for the formatter. -/
+/-- Literal for the regex parser when written unquoted (method text). -/
 def plainChar (c : Char) : Bool := !metaChars.contains c && c != '/' && c != '\n'
 
-def hostLitOK : Seg → Bool
-  | .lit t => !t.toList.isEmpty && t.toList.all plainChar
-  | _ => false
+/-- An HTTP method as the expression needs it: non-empty, no regex metacharacter, no `:`. -/
+def tokenMethod (m : String) : Bool := !m.toList.isEmpty && m.toList.all fun c => plainChar c && c != ':'
 
-def pathLitOK (t : String) : Bool := !t.toList.isEmpty && t.toList.all fun c => plainChar c || c == '.'
+/-- A character that may occur inside one part: not the delimiter of its side (`/`; in the host also `.`). -/
+def partChar (host : Bool) (c : Char) : Bool := c != '/' && (!host || c != '.')
 
-def nameOK (n : String) : Bool := !n.toList.isEmpty && n.toList.all isNameChar
+/-- A literal or parameter part whose text splits back into itself and is classified the way it is meant. -/
+def segOK (host : Bool) : Seg → Bool
+  | .lit t => !isParamText t.toList && t.toList != ['*'] && t.toList.all (partChar host)
+  | .par n => n.toList.all (partChar host)
+  | .wild => false
 
-/-- Path part of a safe pattern: literals, well-named parameters, `*` only as the last part. -/
+/-- Path part of a pattern: literals, parameters, `*` only as the last part. -/
 def pathTailOK : List Part → Bool
   | [] => true
   | p :: ps =>
     !p.host && (match p.seg with
-      | .lit t => pathLitOK t && pathTailOK ps
-      | .par n => nameOK n && pathTailOK ps
-      | .wild => ps.isEmpty)
+      | .wild => ps.isEmpty
+      | s => segOK false s && pathTailOK ps)
 
-/-- Host labels (literal, plain) followed by a safe path. -/
+/-- Host labels (a `*` label only at the very end of a host-only pattern) followed by a path. -/
 def tailOK : List Part → Bool
   | [] => true
-  | p :: ps => if p.host then hostLitOK p.seg && tailOK ps else pathTailOK (p :: ps)
+  | p :: ps =>
+    if p.host then
+      (match p.seg with
+        | .wild => ps.isEmpty
+        | s => segOK true s && tailOK ps)
+    else pathTailOK (p :: ps)
 
-/-- The SAFE alphabet of `managed_covers_engine_partial`. -/
+/-- The patterns of the theorems: STRUCTURE only (what `validateURL` accepts, as parts). -/
 def safe : List Part → Bool
   | [] => false
-  | p :: ps => p.host && hostLitOK p.seg && tailOK ps
+  | p :: ps => p.host && segOK true p.seg && tailOK ps
 
-def safeMethod (m : String) : Bool := m.toList.all plainChar
-
-/-- `{param}` or `*` in host position. -/
-def hostVar (P : List Part) : Bool := P.any fun p => p.host && (match p.seg with | .lit _ => false | _ => true)
-
-/-- A path parameter with a name the formatter does not recognise. -/
-def oddParam (P : List Part) : Bool :=
-  P.any fun p => !p.host && (match p.seg with | .par n => !nameOK n | _ => false)
-
-/-- Well-formed request URL (as parts): host labels first, every segment non-empty, no `/`, no newline. -/
-def segWF (s : Seg) : Bool := !(segChars s).isEmpty && (segChars s).all fun c => c != '/' && c != '\n'
+/-- Well-formed request URL (as parts): host labels first; every part non-empty, without its delimiter and
+    without newline. -/
+def segWF (host : Bool) (s : Seg) : Bool :=
+  !(segChars s).isEmpty && (segChars s).all fun c => partChar host c && c != '\n'
 
 def pathWF : List Part → Bool
   | [] => true
-  | p :: ps => !p.host && segWF p.seg && pathWF ps
+  | p :: ps => !p.host && segWF false p.seg && pathWF ps
 
 def urlTailWF : List Part → Bool
   | [] => true
-  | p :: ps => if p.host then segWF p.seg && urlTailWF ps else pathWF (p :: ps)
+  | p :: ps => if p.host then segWF true p.seg && urlTailWF ps else pathWF (p :: ps)
 
 def urlWF : List Part → Bool
   | [] => false
-  | p :: ps => p.host && segWF p.seg && urlTailWF ps
+  | p :: ps => p.host && segWF true p.seg && urlTailWF ps
 
-/-- A declaration the engine loads: a flow filter (methods may be empty) or an endpoint policy (one
-    method, may be disabled). -/
+/-- A declaration the engine loads: a flow filter (methods may be empty = any method) or an endpoint policy
+    (one method, may be disabled). -/
 structure Decl where
   name : String
   url : String
@@ -94,34 +93,35 @@ structure Decl where
   enabled : Bool
 deriving DecidableEq, Repr
 
-def Decl.supported (d : Decl) : List String := if d.methods.isEmpty then defaultMethods else d.methods
-
 def declsOf : Cfg → List Decl
   | .flows fs => fs.map fun f => ⟨f.name, f.url, f.methods, true⟩
   | .policies ps _ => ps.map fun p => ⟨p.name, p.url, [p.method], p.enabled⟩
 
 inductive Cls where
-  | F14a | F14b | F14c | F14d | F14e | F14f
+  | F14d | F14e
 deriving DecidableEq, Repr
 
 def Cls.id : Cls → String
-  | .F14a => "F14a" | .F14b => "F14b" | .F14c => "F14c" | .F14d => "F14d" | .F14e => "F14e" | .F14f => "F14f"
+  | .F14d => "F14d" | .F14e => "F14e"
+
+def Decl.acceptsMethod (d : Decl) (method : String) : Bool := d.methods.isEmpty || d.methods.contains method
 
 /-- What the declaration's OWN filter says about the request (the declarative oracle). -/
 def accepts (d : Decl) (method url : String) : Bool :=
-  d.enabled && d.supported.contains method && «matches» (splitURL d.url) (splitURL url) && urlWF (splitURL url)
+  d.enabled && d.acceptsMethod method && «matches» (splitURL d.url) (splitURL url) && urlWF (splitURL url)
 
 /-- Neither text loses characters to the engine's `strings.Trim(url, "./")`. -/
 def untrimmed (d : Decl) (url : String) : Bool := trimURL d.url == d.url && trimURL url == url
 
+/-- Input assumptions of the theorems (not defect classes). -/
+def assumptionsOK (d : Decl) (method url : String) : Bool :=
+  safe (splitURL d.url) && render (splitURL d.url) == d.url.toList && render (splitURL url) == url.toList &&
+  tokenMethod method && d.methods.all tokenMethod
+
 /-- The known-defect class of (declaration, request), `none` = clean. -/
 def classify (d : Decl) (method url : String) : Option Cls :=
-  if d.methods.isEmpty && !defaultMethods.contains method then some .F14b
-  else if !untrimmed d url then some .F14d
-  else if hostVar (splitURL d.url) then some .F14c
-  else if oddParam (splitURL d.url) || render (splitURL d.url) != d.url.toList then some .F14f
-  else if !(safe (splitURL d.url) && safeMethod method) then some .F14a
-  else if !(accepts d method url && render (splitURL url) == url.toList) then some .F14e
+  if !untrimmed d url then some .F14d
+  else if !accepts d method url then some .F14e
   else none
 
 def findDecl (ds : List Decl) (name : String) : Option Decl := ds.find? (·.name == name)
@@ -144,7 +144,7 @@ def reqVerdict (ds : List Decl) (method url : String) (sel : List String) (manag
       | some (some (some c)) => .known c
       | _ => .ok
 
-/-- The property predicate proper (what `c14_holds_partial` is about). -/
+/-- The property predicate proper. -/
 def reqOk (sel : List String) (managed : Bool) : Bool := sel.isEmpty || managed
 
 end LunarVerif.C14
